@@ -45,6 +45,7 @@ type St struct {
 	wfSnap  map[string]*Term // heap for which the global invariant is known to hold (nil: unknown)
 	wfKnown bool
 	fresh   []*Term // references allocated on this path in this activation
+	wgs     []*Term // the sync.WaitGroups among them
 	dead    bool
 	yielded bool // closures: a value has been yielded on this path
 }
@@ -64,6 +65,7 @@ func (s *St) clone() *St {
 		n.defers[k] = append([]deferred(nil), v...)
 	}
 	n.fresh = append([]*Term(nil), s.fresh...)
+	n.wgs = append([]*Term(nil), s.wgs...)
 	n.yielded = s.yielded
 	return n
 }
